@@ -435,49 +435,59 @@ def run(ctx):
 
     # ------------------------------------------------------------------
     R = "C12.path_orientation"
-    ctx.rule(R, "Path._initialize_links records the link with orientation '-' "
-             "exactly when the stored link matches in complement form, '+' "
-             "otherwise, and files the path under the link's 'paths'", floor=2)
+    ctx.rule(R, "Path._initialize_links records the stored link with "
+             "orientation '-' exactly when it matches the required "
+             "(from, to, overlap) in complement form, '+' otherwise, and "
+             "files the path under the link's 'paths'; every stored link of "
+             "the domain x both ways the path can require it", floor=100)
     P = repo.cls("line.group.Path")
     f_il = ctx.anchor("Path._initialize_links",
                       P.find_method("_initialize_links"))
-    for compl in (True, False):
-        ctx.instance(R)
-        stored = Abs(link, label="stored")
+    for d in descr:
+        for form in ("direct", "complement"):
+            q = d if form == "direct" else comp_fields(d)
+            c1 = comp_fields(d)
+            want_compl = c1[:4] == q[:4] and ov_compatible(c1[4], q[4])
+            ctx.instance(R)
+            stored = mk_link(oh, segs[d[0]], d[1], segs[d[2]], d[3],
+                             oh.ov(*d[4]), label="stored")
 
-        class PH(OvHooks):
-            def before_inline(self, ev, func, args, kwargs):
-                if func.name == "_compute_required_links":
-                    return [[ol(segs["a"], "+"), ol(segs["b"], "+"),
-                             self.ov("X")]]
-                if func.name == "is_compatible_complement":
-                    return compl
-                return NotImplemented
+            class PH(OvHooks):
+                def before_inline(self, ev, func, args, kwargs, q=q):
+                    if func.name == "_compute_required_links":
+                        return [[ol(segs[q[0]], q[1]), ol(segs[q[2]], q[3]),
+                                 self.ov(*q[4])]]
+                    return NotImplemented
 
-            def method(self, ev, base, name, args, kwargs, node):
-                if isinstance(base, Abs) and base.attrs.get("__gfa__"):
-                    if name == "segment":
-                        return segs.get(self.name_of(args[0]))
-                    if name == "_search_link":
-                        return stored
-                return super().method(ev, base, name, args, kwargs, node)
-        ph = PH(repo)
-        gfa = Abs(None, label="gfa", __gfa__=True, segments=segs,
-                  _segments_first_order=False)
-        p = Abs(P, label="path", _gfa=gfa, _refs={})
-        out = eval_function(repo, f_il, [p], hooks=ph)
-        links = p.attrs["_refs"].get("links") if out[0] == "return" else None
-        ok = isinstance(links, list) and len(links) == 1 and \
-            isinstance(links[0], Abs) and links[0].attrs.get("line") is stored \
-            and links[0].attrs.get("orient") == ("-" if compl else "+")
-        ok = ok and ("addref", "stored", "paths", "path") in out[2]
-        ctx.oblige(ok)
-        if not ok:
-            ctx.violation(R, f_il.short, "complement_match=%s" % compl,
-                          "the path records %r (events %r); expected the "
-                          "stored link with orientation %s and a 'paths' "
-                          "back-reference" % (links, out[2],
-                                              "-" if compl else "+"))
+                def method(self, ev, base, name, args, kwargs, node,
+                           stored=stored):
+                    if isinstance(base, Abs) and base.attrs.get("__gfa__"):
+                        if name == "segment":
+                            return segs.get(self.name_of(args[0]))
+                        if name == "_search_link":
+                            return stored
+                    return super().method(ev, base, name, args, kwargs, node)
+            gfa = Abs(None, label="gfa", __gfa__=True, segments=segs,
+                      _segments_first_order=False)
+            p = Abs(P, label="path", _gfa=gfa, _refs={})
+            out = eval_function(repo, f_il, [p], hooks=PH(repo))
+            links = p.attrs["_refs"].get("links") \
+                if out[0] == "return" else None
+            got = links[0].attrs.get("orient") if isinstance(links, list) \
+                and len(links) == 1 and isinstance(links[0], Abs) else None
+            ok = got == ("-" if want_compl else "+") and \
+                links[0].attrs.get("line") is stored and \
+                ("addref", "stored", "paths", "path") in out[2]
+            ctx.oblige(ok)
+            if not ok:
+                ctx.violation(
+                    R, f_il.short, "stored=%s,required=%s" % (
+                        fmt_link(d), fmt_link(q)),
+                    "the path records orientation %r for the stored link "
+                    "(outcome %r); the link matches the required one in "
+                    "complement form: %s, so the orientation must be %s" % (
+                        got, out[0:2], want_compl,
+                        "-" if want_compl else "+"))
     ctx.exhaustive[R] = True
     ctx.notes["domain"] = ("CIGAR codes MIDNSHPX=; links over segments {a,b}, "
                            "orientations {+,-}, overlaps {X, X', Y, *}")
